@@ -331,6 +331,10 @@ class HTTPConnection(_HTTPConnection):
             self._tunnel_host = None
             self._tunnel_port = None
             self._tunnel_scheme = None
+            # A request that was rejected after putrequest() leaves its request
+            # line and headers in http.client's output buffer; they must not be
+            # sent in front of the next request made with this object.
+            del self._buffer[:]
 
     def putrequest(
         self,
